@@ -276,6 +276,9 @@ def loop_nodes(fn_node):
     return out
 
 
+NUMPY_PROXY_SAFE = {"array", "asarray", "atleast_1d", "atleast_2d", "squeeze", "concatenate", "dot", "sum", "prod", "transpose",
+                    "reshape", "ravel", "stack", "vstack", "hstack", "zeros_like", "ones_like", "tile", "reduce", "outer", "diag", "eye"}
+
 BINOPS = {ast.Add: operator.add, ast.Sub: operator.sub, ast.Mult: operator.mul, ast.Div: operator.truediv,
           ast.FloorDiv: operator.floordiv, ast.Mod: operator.mod, ast.Pow: operator.pow,
           ast.BitAnd: operator.and_, ast.BitOr: operator.or_, ast.BitXor: operator.xor,
@@ -370,6 +373,8 @@ class Interp:
         mod = getattr(fn, "__module__", "") or ""
         name = getattr(fn, "__qualname__", getattr(fn, "__name__", repr(fn)))
         if mod.startswith("pyvc") or mod.startswith("contracts") or mod.startswith("spec"):
+            return fn(*args, **kwargs)
+        if mod.split(".")[0] == "numpy" and name.split(".")[-1] in NUMPY_PROXY_SAFE:
             return fn(*args, **kwargs)
         if (mod, name) in self.session.proxy_safe or mod.split(".")[0] in ("operator", "_operator", "itertools", "functools", "collections"):
             return fn(*args, **kwargs)
